@@ -396,3 +396,39 @@ C14 = dict(
                  "completions range over the model universe only (a subset of all consistent completions)"],
 )
 FAMILIES["C14"] = C14
+
+
+# ----------------------------------------------------------------- C15
+def _batched_case(world, c, i):
+    return dict(id=i, pols=c["pols"], params=c["params"], loader=c["loader"], maxBudget=c["maxBudget"])
+
+
+def _mutate_batched(ev):
+    if ev.get("ev") != "Batched":
+        return None
+    ev = json.loads(json.dumps(ev))
+    last = ev["outcomes"][-1]
+    if last[0] == "decision":
+        last[1] = "Deny" if last[1] == "Allow" else "Allow"
+    else:
+        ev["outcomes"][-1] = ["decision", "Allow"]
+        ev["outcomes"][-2] = ["decision", "Deny"]
+    return ev
+
+
+C15 = dict(
+    family="batched", trace_module="Trace_Batched.tla",
+    models=[dict(name="mc_batched_loop", module="MC_BatchedLoop.tla", cfg=dict(quick="MC_BatchedLoop.cfg", thorough="MC_BatchedLoop.cfg")),
+            dict(name="mc_batched", module="MC_Batched.tla", cfg=dict(quick="MC_Batched.cfg", thorough="MC_Batched.cfg"),
+                 cases=_batched_case, setup=_tpe_setup, limit=dict(quick=None, thorough=None))],
+    nontrivial=lambda ev: ev.get("ev") == "Batched",
+    key=lambda ev: [ev.get("pols"), ev.get("params"), ev.get("loader")],
+    mutate=_mutate_batched, chunk=300,
+    rule="M: the abstract loop of Batched.tla model-checked over 3 uids. G: 178 strictly valid policy sets x 8 conformant environments (attribute chains "
+         "through present / record-less entities, optional data present or absent) x 3 loader behaviours (exactly what is asked; everything on the first "
+         "call; one extra entity per call), each run with every budget 0..9 through is_authorized_batched with a recording loader. TLC checks: a reported "
+         "decision is the ordinary decision, budgets too small answer 'insufficient', a decision persists for larger budgets, a budget above the number of "
+         "distinct uids (store, request, policies) decides, and the recorded loader calls are a behaviour of the loop (<= budget calls, nothing asked twice).",
+    assumptions=["loaders are deterministic and backed by the environment's store; a loader never returns the same entity twice"],
+)
+FAMILIES["C15"] = C15
